@@ -19,9 +19,13 @@ theorem analyzer0 (dom : List (DomVar R)) (c : Constraint R) (tol : R) :
 /-- with step limit 0, a one-constraint model over the domain `x : NonNegativeReal` compiles exactly as the
 lowering on the declared ranges. -/
 theorem compile0_eq (m : Model R) (c : Constraint R) (tol : R) (hc : m.constraints = [c])
-    (hn : Compile.normalizedForBounds m.constraints = some m.constraints) (hdom : m.domain = exA.domain) :
+    (hn : Compile.normalizedForBounds m.constraints = some m.constraints) (hdom : m.domain = exA.domain)
+    (hscr : ∃ r, collapseCheckAll m (Compile.scratchState m tol 0) = .ok r) :
     Compile.linearize m tol 0 = linearizeWith m exAb exA.domain := by
   unfold Compile.linearize
+  obtain ⟨r, hr⟩ := hscr
+  rw [hr]
+  dsimp only
   rw [hn]
   dsimp only
   rw [hc, analyzer0, hdom]
@@ -41,12 +45,14 @@ theorem compile0_eq (m : Model R) (c : Constraint R) (tol : R) (hc : m.constrain
 
 theorem exA_compile (tol : R) :
     Compile.linearize exA tol 0 = .ok (assemble exA (Ctx.fromVar "x" Arith.one) exA_final) := by
-  rw [compile0_eq exA _ tol rfl (by simp [Compile.normalizedForBounds, exA, norm_var, norm_num]) rfl]
+  rw [compile0_eq exA _ tol rfl (by simp [Compile.normalizedForBounds, exA, norm_var, norm_num]) rfl
+    ⟨_, by simp [collapseCheckAll, collapseCheckConstraints, collapseCheck, exA]; rfl⟩]
   exact exA_compiles
 
 theorem exB_compile (tol : R) :
     Compile.linearize exB tol 0 = .ok (assemble exB (Ctx.fromVar "x" Arith.one) exB_final) := by
-  rw [compile0_eq exB _ tol rfl (by simp [Compile.normalizedForBounds, exB, exB_lhs, norm_num]) rfl]
+  rw [compile0_eq exB _ tol rfl (by simp [Compile.normalizedForBounds, exB, exB_lhs, norm_num]) rfl
+    ⟨_, by simp [collapseCheckAll, collapseCheckConstraints, collapseCheck, exB, infx]; rfl⟩]
   exact exB_compiles
 
 end Examples
